@@ -228,3 +228,52 @@ Definition format_aggregate (st : pp_state) (t : table) : res (pp_state * str) :
                    end in
       Ok (mkPP w2 (pp_term st), flat_map (fun l => l ++ [10%N]) lines)
   end.
+
+(** ** records: [format_record_as_columns] (src/printer.rs) *)
+Record rp_state := mkRP { rp_widths : widths; rp_order : list str; rp_term : option (nat * nat) }.
+
+(** [new_columns]: the row's keys not seen before, sorted *)
+Definition new_columns (order : list str) (d : data) : list str :=
+  isort (fun a b => cmp_le (str_cmp a b))
+        (filter (fun k => negb (existsb (str_eqb k) order)) (map fst d)).
+
+(** [projected_width]: per column its width + the name + "[=]" *)
+Definition projected_width (w : widths) : nat :=
+  fold_right (fun kv n => snd kv + utf8_len (fst kv) + 3 + n)%nat O w.
+
+Definition overflows_term (st_term : option (nat * nat)) (w : widths) : bool :=
+  match st_term with None => false | Some (width, _) => Nat.ltb width (projected_width w) end.
+
+Definition record_cell (no_padding : bool) (w : widths) (d : data) (c : str) : res str :=
+  do unpadded <- match get c d with
+                 | Some v => do s <- render v; Ok (91%N :: c ++ 61%N :: s ++ [93%N])
+                 | None => Ok []
+                 end;
+  if no_padding then Ok unpadded
+  else match get c w with
+       | None => Panic                                   (* self.column_widths[column_name] *)
+       | Some cw => let width := (utf8_len c + 3 + cw)%nat in
+                    Ok (unpadded ++ repeat 32%N (width - length unpadded))
+       end.
+
+Definition format_record (st : rp_state) (r : record) : res (rp_state * str) :=
+  let d := rdata r in
+  do w1 <- update_widths (rp_widths st) d;
+  let order1 := rp_order st ++ new_columns (rp_order st) d in
+  match order1 with
+  | [] => Ok (mkRP w1 order1 (rp_term st), trim_end (rraw r))
+  | _ =>
+      do reset <- (if overflows_term (rp_term st) w1
+                   then do w2 <- update_widths [] d; Ok (w2, new_columns [] d, overflows_term (rp_term st) w2)
+                   else Ok (w1, order1, false));
+      let '(w, order, no_padding) := reset in
+      do cells <- sequence_res (map (record_cell no_padding w d) order);
+      Ok (mkRP w order (rp_term st), trim (concat cells))
+  end.
+
+(** a stream of records through one printer *)
+Fixpoint format_records (st : rp_state) (rs : list record) : res (list str) :=
+  match rs with
+  | [] => Ok []
+  | r :: rest => do sl <- format_record st r; do ls <- format_records (fst sl) rest; Ok (snd sl :: ls)
+  end.
